@@ -23,6 +23,19 @@ pub trait Sink<R: Region>: Sized {
     fn from_all<T>(xs: Vec<T>) -> Self
     where
         R: Push<T>;
+    /// the same through an iterator that gives no useful size hint (lower bound 0)
+    fn put_all_loose<T>(&mut self, xs: Vec<T>)
+    where
+        R: Push<T>,
+    {
+        self.put_all(xs)
+    }
+    fn from_all_loose<T>(xs: Vec<T>) -> Self
+    where
+        R: Push<T>,
+    {
+        Self::from_all(xs)
+    }
 }
 
 impl<R: Region> Sink<R> for R {
@@ -73,6 +86,18 @@ impl<R: Region, S: IndexContainer<R::Index>> Sink<R> for FlatStack<R, S> {
     {
         xs.into_iter().collect()
     }
+    fn put_all_loose<T>(&mut self, xs: Vec<T>)
+    where
+        R: Push<T>,
+    {
+        self.extend(xs.into_iter().filter(|_| true))
+    }
+    fn from_all_loose<T>(xs: Vec<T>) -> Self
+    where
+        R: Push<T>,
+    {
+        xs.into_iter().filter(|_| true).collect()
+    }
 }
 
 /// Per-catalogue-entry code (generated): input forms, serde, item comparison.
@@ -84,6 +109,8 @@ pub trait Cat: Region + 'static {
     fn push_form<K: Sink<Self>>(sink: &mut K, form: &str, w: &Self::Owned) -> Option<K::Out>;
     fn push_all_form<K: Sink<Self>>(sink: &mut K, form: &str, ws: &[Self::Owned]) -> Option<()>;
     fn from_all_form<K: Sink<Self>>(form: &str, ws: &[Self::Owned]) -> Option<K>;
+    fn push_all_loose_form<K: Sink<Self>>(sink: &mut K, form: &str, ws: &[Self::Owned]) -> Option<()>;
+    fn from_all_loose_form<K: Sink<Self>>(form: &str, ws: &[Self::Owned]) -> Option<K>;
     fn reserve_form(&mut self, form: &str, ws: &[Self::Owned]) -> Option<()>;
     fn push_item(&mut self, src: &Self, index: Self::Index, borrowed: bool) -> Option<Self::Index>;
     fn ser(&self) -> Option<String>;
@@ -424,16 +451,18 @@ where
                 let consistent = rest_a == rest_b && rest_a[..] == items[n / 2..] && via_ref == items;
                 format!("iter {} hints {} clone {}", Val::List(items).render(), hints_ok as u8, consistent as u8)
             }
-            ("sextend", [form, v]) | ("sfrom", [form, v]) => {
+            ("sextend", [form, v]) | ("sfrom", [form, v]) | ("sextendl", [form, v]) | ("sfroml", [form, v]) => {
                 let Some(Val::List(xs)) = Val::parse(v) else { return "bad-value".into() };
                 let Some(ws) = xs.iter().map(R::Owned::from_val).collect::<Option<Vec<_>>>() else { return "bad-value".into() };
-                if op == "sextend" {
-                    match R::push_all_form(&mut self.fs, form, &ws) {
+                if op.starts_with("sextend") {
+                    let r = if op == "sextend" { R::push_all_form(&mut self.fs, form, &ws) } else { R::push_all_loose_form(&mut self.fs, form, &ws) };
+                    match r {
                         Some(()) => "ok".into(),
                         None => "bad-form".into(),
                     }
                 } else {
-                    match R::from_all_form::<FlatStack<R, S>>(form, &ws) {
+                    let r = if op == "sfrom" { R::from_all_form::<FlatStack<R, S>>(form, &ws) } else { R::from_all_loose_form::<FlatStack<R, S>>(form, &ws) };
+                    match r {
                         Some(fs) => {
                             self.fs = fs;
                             "ok".into()
